@@ -271,7 +271,9 @@ var (
 	ecsMessages *dnsmsg.Constructor
 )
 
-const ecsMinTTL = 20 * time.Second
+// ecsMinTTL is the minimum TTL of the ECS cache of the rigs built next; a
+// variable, so that a case can ask for another one.
+var ecsMinTTL = 20 * time.Second
 
 func ecsInit() {
 	var err error
